@@ -279,7 +279,8 @@ class SATEncoder:
         var.bool_vars = {}
         for v in range(lb, ub + 1):
             var.bool_vars[v] = self._new_bool_var()
-        self.model._vars[name] = var
+        # Auxiliaries are created after _encode_vars() ran: give them their exactly-one here, and keep them out of the model
+        self._encode_exactly_one(list(var.bool_vars.values()))
         return var
 
     # Global constraints
@@ -293,10 +294,11 @@ class SATEncoder:
         # All different
         self._encode_all_different(variables)
 
-        # No self-loops: x[i] != i
+        # No self-loops (x[i] != i) and successors must be nodes 0..n-1
         for i, var in enumerate(variables):
-            if i in var.bool_vars:
-                self._clauses.append([-var.bool_vars[i]])
+            for val, lit in var.bool_vars.items():
+                if val == i or val < 0 or val >= n:
+                    self._clauses.append([-lit])
 
         if n <= 1:
             return
@@ -310,11 +312,9 @@ class SATEncoder:
         for i, var in enumerate(variables):
             for j in range(1, n):
                 if j in var.bool_vars:
-                    for ti in range(var.lb, var.ub + 1):
-                        if ti not in t[i].bool_vars:
-                            continue
-                        for tj in range(t[j].lb, ti + 1):
-                            if tj in t[j].bool_vars:
+                    for ti in t[i].bool_vars:
+                        for tj in t[j].bool_vars:
+                            if tj <= ti:
                                 self._clauses.append([-var.bool_vars[j], -t[i].bool_vars[ti], -t[j].bool_vars[tj]])
 
     def _encode_no_overlap(self, starts: tuple["IntVar", ...], durations: tuple[int, ...]) -> None:
